@@ -130,6 +130,8 @@ def exc_class(e: BaseException) -> str:
         return "attr"
     if isinstance(e, (MemoryError, OverflowError)):
         return "mem"
+    if isinstance(e, ZeroDivisionError):
+        return "zerodiv"
     if isinstance(e, RuntimeError) and "StopIteration" in str(e):
         return "stop"
     import zlib
